@@ -145,16 +145,27 @@ std::string runCase(const Case &c) {
     try {
       switch (op.kind) {
         case SET_ALL: d.set(); ref.assign(ref.size(), true); break;
-        case SET_POS: { d.set(op.a, op.v); std::string g = grow(op.a); if (!g.empty()) return where + g; ref[op.a] = op.v; break; }
+        case SET_POS: case RESET_POS: case FLIP_POS:
+          if (op.a == SIZE_MAX) {
+            // no size includes this position: the only acceptable outcome is an exception, nothing changed
+            st.cls("position_size_max");
+            nontrivial = true;
+            bool threw = false;
+            try { if (op.kind == SET_POS) d.set(op.a, op.v); else if (op.kind == RESET_POS) d.reset(op.a); else d.flip(op.a); }
+            catch (const std::exception &) { threw = true; }
+            if (!threw) return where + "position SIZE_MAX was accepted";
+            break;
+          }
+          if (op.kind == SET_POS) { d.set(op.a, op.v); std::string g = grow(op.a); if (!g.empty()) return where + g; ref[op.a] = op.v; break; }
+          if (op.kind == RESET_POS) { d.reset(op.a); std::string g = grow(op.a); if (!g.empty()) return where + g; ref[op.a] = false; break; }
+          { d.flip(op.a); std::string g = grow(op.a); if (!g.empty()) return where + g; ref[op.a] = !ref[op.a]; break; }
         case RESET_ALL: {
           d.reset();
           if (d.count() != 0) return where + "reset() left bits set";
           ref.assign(d.size(), false);   // size after reset() is the implementation's choice
           break;
         }
-        case RESET_POS: { d.reset(op.a); std::string g = grow(op.a); if (!g.empty()) return where + g; ref[op.a] = false; break; }
         case FLIP_ALL: d.flip(); ref.flip(); break;
-        case FLIP_POS: { d.flip(op.a); std::string g = grow(op.a); if (!g.empty()) return where + g; ref[op.a] = !ref[op.a]; break; }
         case IDX_WRITE: { d[op.a] = op.v; std::string g = grow(op.a); if (!g.empty()) return where + g; ref[op.a] = op.v; break; }
         case IDX_READ: {
           bool b = d[op.a];
@@ -298,6 +309,7 @@ rc::Gen<Case> genCase() {
       switch (o.kind) {
         case SET_POS: case RESET_POS: case FLIP_POS: case IDX_WRITE: case IDX_READ:
           o.a = pos();
+          if ((o.kind == SET_POS || o.kind == RESET_POS || o.kind == FLIP_POS) && *range<int>(0, 24) == 0) { o.a = SIZE_MAX; break; }
           if (o.a >= cur) cur = static_cast<size_t>((o.a + 1) * 1.5);
           break;
         case TEST: case CONST_IDX: o.a = pos(); break;
@@ -334,9 +346,11 @@ void enumerate(const std::function<bool(const Case &)> &cb) {
       switch (kind) {
         case SET_POS: case IDX_WRITE: case RESIZE:
           for (uint64_t p = 0; p <= init.size() + 3; ++p) for (int v = 0; v < 2; ++v) { Op o; o.a = p; o.v = v; if (!emit(o)) return; }
+          if (kind == SET_POS) { Op o; o.a = SIZE_MAX; o.v = true; if (!emit(o)) return; }
           break;
         case RESET_POS: case FLIP_POS: case IDX_READ: case TEST: case CONST_IDX: case SHL: case SHR:
           for (uint64_t p = 0; p <= init.size() + 3; ++p) { Op o; o.a = p; if (!emit(o)) return; }
+          if (kind == RESET_POS || kind == FLIP_POS) { Op o; o.a = SIZE_MAX; if (!emit(o)) return; }
           break;
         case AND_ASSIGN: case OR_ASSIGN: case XOR_ASSIGN:
           for (auto &other : all) { Op o; o.bits = other; if (!emit(o)) return; }
